@@ -25,6 +25,13 @@ class FakeRDB(InMemoryStorage):
             ts = [t for t in ts if t._trial_id > trial_id_greater_than]
         return sorted(ts, key=lambda t: t._trial_id)
 
+    # RDBStorage builds fresh FrozenTrial objects for every read
+    def get_trial(self, trial_id):
+        return copy.deepcopy(super().get_trial(trial_id))
+
+    def get_all_trials(self, study_id, deepcopy=True, states=None):
+        return super().get_all_trials(study_id, deepcopy=True, states=states)
+
     # heartbeat API so that _CachedStorage's BaseHeartbeat methods can be called
     def record_heartbeat(self, trial_id):
         pass
